@@ -51,6 +51,7 @@ func Main(args []string) {
 	fs := flag.NewFlagSet("C15", flag.ExitOnError)
 	replay := fs.String("replay", "", "replay file")
 	depthOverride := fs.Int("depth", 0, "override the depth")
+	only := fs.Int("plan", -1, "run only the plan with this index (debugging)")
 	fs.Parse(args)
 	bin, err := buildGitBug()
 	if err != nil {
@@ -82,7 +83,10 @@ func Main(args []string) {
 	tags := map[string]int{}
 	var runInfo []map[string]any
 	var samples []any
-	for _, pl := range plans {
+	for i, pl := range plans {
+		if *only >= 0 && i != *only {
+			continue
+		}
 		depth := pl.depth
 		if *depthOverride > 0 {
 			depth = *depthOverride
